@@ -43,17 +43,20 @@ def fmt (pre post : String) (parts : List (String × Out)) : Out :=
   | .error e => e
 
 /-- what the harness's instrumented callable does with the rendering of its argument -/
+def showCall (armed : Bool) (tag : String) (rc : Bool) (fault : Fault) (inner : Out) : Out :=
+  if armed && fault == .pre then .exc ("user:" ++ tag)
+  else if rc then
+    (match inner with
+     | .ok s => if armed && fault == .post then .exc ("user:" ++ tag) else .ok (tag ++ "<" ++ s ++ ">")
+     | e => e)
+  else if armed && fault == .post then .exc ("user:" ++ tag)
+  else .ok tag
+
+/-- a tolerant callable sees `!` where rendering its value raised -/
 def showWith (armed : Bool) (r : ReprArg) (inner : Out) : Out :=
   match r with
   | .on | .off => inner
-  | .call tag rc fault =>
-    if armed && fault == .pre then .exc ("user:" ++ tag)
-    else if rc then
-      (match inner with
-       | .ok s => if armed && fault == .post then .exc ("user:" ++ tag) else .ok (tag ++ "<" ++ s ++ ">")
-       | e => e)
-    else if armed && fault == .post then .exc ("user:" ++ tag)
-    else .ok tag
+  | .call tag rc fault tol => showCall armed tag rc fault (if tol then swallow inner else inner)
 
 /-- one field of an instance: its value through `repr` or the callable; an unset `init=False`
     field shows `NOTHING`; an unset `init=True` field is an AttributeError -/
